@@ -34,6 +34,7 @@ func init() {
 	register("mod", opMod)
 	register("text", opText)
 	register("textrun", opTextRun)
+	register("texthist", opTextHist)
 }
 
 func textField(s string) string {
@@ -257,4 +258,52 @@ func opTextRun(f []string) string {
 		return listField(e)
 	}
 	return "bad-op"
+}
+
+// texthist <t> <i4> <j4> <steps>   one text VALUE observed over a history: steps is a word over
+//   l (长度)  c (字符组)  s (取样 i j)  v (the text itself)  n (转换数值 — which rewrites *^ / *10^ in the receiver)
+// every step goes through the evaluator on the SAME value; fields are joined by " | ".
+func opTextHist(f []string) string {
+	t := value.NewString(string(parseCps(f[0])))
+	out := []string{}
+	for _, st := range f[3] {
+		switch st {
+		case 'l':
+			e, err := runProgram("输入T\n输出T之长度", r.ElementMap{"T": t})
+			if err != nil {
+				out = append(out, errField(err))
+			} else {
+				out = append(out, numField(e))
+			}
+		case 'c':
+			e, err := runProgram("输入T\n输出T之字符组", r.ElementMap{"T": t})
+			if err != nil {
+				out = append(out, errField(err))
+			} else {
+				out = append(out, listField(e))
+			}
+		case 's':
+			e, err := runProgram("输入T、I、J\n输出以T（取样：I、J）", r.ElementMap{"T": t,
+				"I": value.NewNumber(quarter(f[1])), "J": value.NewNumber(quarter(f[2]))})
+			if err != nil {
+				out = append(out, errField(err))
+			} else {
+				out = append(out, strField(e))
+			}
+		case 'v':
+			e, err := runProgram("输入T\n输出T", r.ElementMap{"T": t})
+			if err != nil {
+				out = append(out, errField(err))
+			} else {
+				out = append(out, strField(e))
+			}
+		case 'n':
+			// whether the text is a number is not this stream's business (strconv.ParseFloat is not modelled)
+			_, _ = runProgram("输入T\n输出以T（转换数值）", r.ElementMap{"T": t})
+			out = append(out, "n")
+		default:
+			return "bad-op"
+		}
+	}
+	return strings.Join(out, " | ")
 }
